@@ -3,7 +3,7 @@ use samlang_ast::{lir, mir};
 use samlang_heap::{Heap, PStr};
 use std::collections::{BTreeMap, HashSet};
 
-use crate::lir_unused_name_elimination;
+use crate::{lir_unused_name_elimination, mir_tail_recursion_rewrite};
 
 type TypesNeedingAnyPointer = HashSet<mir::TypeNameId>;
 
@@ -52,6 +52,16 @@ fn lower_expression(expr: mir::Expression) -> lir::Expression {
   }
 }
 
+/// Whether the first parameter of a function is `_this` (the receiver of a method or the context
+/// of a closure function), possibly renamed by the tail recursion rewrite.
+pub(super) fn first_parameter_is_this(heap: &Heap, parameters: &[PStr]) -> bool {
+  parameters.first().is_some_and(|p| {
+    *p == PStr::UNDERSCORE_THIS
+      || p.as_str(heap)
+        == mir_tail_recursion_rewrite::tail_rec_param_name(PStr::UNDERSCORE_THIS.as_str(heap))
+  })
+}
+
 struct LoweringManager<'a> {
   heap: &'a mut Heap,
   closure_defs: &'a BTreeMap<mir::TypeNameId, lir::FunctionType>,
@@ -89,7 +99,7 @@ impl<'a> LoweringManager<'a> {
     // This ensures the function signature matches what call_indirect expects when calling closures,
     // since closure calls always use a type-erased signature with (ref eq) as the context param.
     // The context can be Int31, a struct, or already AnyPointer - we unify all to AnyPointer.
-    if parameters.first() == Some(&PStr::UNDERSCORE_THIS)
+    if first_parameter_is_this(self.heap, &parameters)
       && !fn_type.argument_types.is_empty()
       && fn_type.argument_types[0] != lir::Type::AnyPointer
     {
